@@ -596,3 +596,5 @@ PROPS["C07"]["rule"] += " Whole-process: a solicitation from :: (handed over as 
 PROPS["C04"]["rule"] += " Slow-state sub-check (400 / 60 000 cases): a forwarding read samples the value and returns 700 ms later, so RA generations overlap; each solicitation comes from a host of its own, flips fall while an answer is being generated, further solicitations follow the flip; an RA must be consistent with a forwarding value from [max(write start - 700 ms, the instant its solicitation was read), write start]. Non-trivial there: two generations overlapping in time."
 PROPS["C10"]["rule"] += " System call faults carry an errno from {ENETDOWN, EINTR, EMFILE, ENFILE, ENOBUFS, EIO, ENODEV} in the *net.OpError / *os.SyscallError wrapping a socket operation returns (EINTR, EMFILE, ENFILE report Temporary()); the policy part draws one of five error shapes per case (also EACCES as a permission error)."
 PROPS["C17"]["rule"] += " One configuration in five (both parts) has stanzas A, B, A' whose options share their metric labels without being neighbours in the RA."
+PROPS["C12"]["rule"] += " In half of the live cases every reception brings another foreign RA (single-valued options - MTU, captive portal - dropped, changed or added; everything re-drawn now and then), all handled by the one Advertiser."
+PROPS["C17"]["rule"] += " While requests overlap, address and route lookups of the plugins take 1 ms as well."
